@@ -45,7 +45,7 @@ class Run:
         self.dir = os.path.join(OUT, f"{pid}-{tier}-{os.getpid()}")
         shutil.rmtree(self.dir, ignore_errors=True)
         os.makedirs(self.dir, exist_ok=True)
-        self.replay_dir = os.path.join(OUT, "replays", pid)
+        self.replay_dir = os.path.join(OUT, "replays" + os.environ.get("VERIF_REPLAY_TAG", ""), pid)
         os.makedirs(self.replay_dir, exist_ok=True)
         self.states = 0
         self.transitions = 0
